@@ -51,6 +51,62 @@ theorem frame_length_eq (pcode : Int) (license pl : Bytes) :
     (frame pcode license pl).length = 22 + pl.length := by
   simp [frame]; omega
 
+/-! ### the secure frame variant -/
+
+structure SecureParts where
+  src : Nat
+  ver : Nat
+  pcode : Int
+  oid : Int
+  key : Int
+  payload : Bytes
+deriving Repr, DecidableEq
+
+def parseSecure : P SecureParts :=
+  P.bind (rdU 1) fun src =>
+  P.bind (rdU 1) fun ver =>
+  P.bind (rdI 8) fun pc =>
+  P.bind (rdI 4) fun oid =>
+  P.bind (rdI 4) fun key =>
+  P.bind decBytes32 fun pl => .pure ⟨src, ver, pc, oid, key, pl⟩
+
+theorem run_parseSecure (src ver : Nat) (pcode oid key : Int) (pl r : Bytes) (hs : src < 256) (hv : ver < 256)
+    (hp : inRange 8 pcode) (ho : inRange 4 oid) (hk : inRange 4 key) (hl : pl.length < 2147483648) :
+    P.run parseSecure (secureFrame src ver pcode oid key pl ++ r) = some (⟨src, ver, pcode, oid, key, pl⟩, r) := by
+  unfold parseSecure secureFrame
+  have e1 : [src % 256] = beN 1 src := by simp [beN]
+  have e2 : [ver % 256] = beN 1 ver := by simp [beN]
+  rw [e1, e2]
+  simp only [List.append_assoc]
+  rw [P.run_bind_some _ _ _ _ _ (run_rdU 1 src _ (by omega))]
+  rw [P.run_bind_some _ _ _ _ _ (run_rdU 1 ver _ (by omega))]
+  rw [P.run_bind_some _ _ _ _ _ (run_rdI 8 pcode _ hp)]
+  rw [P.run_bind_some _ _ _ _ _ (run_rdI 4 oid _ ho)]
+  rw [P.run_bind_some _ _ _ _ _ (run_rdI 4 key _ hk)]
+  have e3 : encI 4 (pl.length : Int) ++ (pl ++ r) = encBytes32 pl ++ r := by
+    simp [encBytes32]
+  rw [e3, P.run_bind_some _ _ _ _ _ (run_decBytes32 pl r hl)]
+  rfl
+
+theorem padECB_facts (n : Nat) (hn : 0 < n) (bs : Bytes) :
+    (padECB n bs).length % n = 0 ∧ (padECB n bs).take bs.length = bs ∧
+    (padECB n bs).length < bs.length + n ∧ ∀ b ∈ (padECB n bs).drop bs.length, b = 0 := by
+  unfold padECB
+  by_cases h : bs.length % n = 0
+  · simp [h]; omega
+  · simp only [h, if_false]
+    have hlt : bs.length % n < n := Nat.mod_lt _ hn
+    refine ⟨?_, by simp, by simp; omega, ?_⟩
+    · simp only [List.length_append, List.length_replicate]
+      have : bs.length + (n - bs.length % n) = (bs.length / n + 1) * n := by
+        have := Nat.div_add_mod bs.length n
+        rw [Nat.add_mul, Nat.one_mul, Nat.mul_comm]
+        omega
+      rw [this]; exact Nat.mul_mod_left _ _
+    · intro b hb
+      simp at hb
+      exact hb.2
+
 /-! ### a connection's byte stream -/
 
 /-- what a receiver does with a connection: parse frame after frame; what does not parse as a frame start is
